@@ -305,6 +305,24 @@ class GeffMetadata(BaseModel):
 
         return self
 
+    def __setattr__(self, name: str, value: Any) -> None:
+        """Assign to a field; a rejected assignment leaves the metadata unchanged.
+
+        With `validate_assignment=True` pydantic stores the new value before it runs the
+        `mode="after"` model validator and does not undo the assignment when that validator
+        raises (duplicate axis names, display hints naming an unknown axis, property key
+        not matching its identifier), which would leave an invalid object behind.
+        Restore the previous field values and fields-set in that case.
+        """
+        old_dict = self.__dict__.copy()
+        old_fields_set = self.__pydantic_fields_set__.copy()
+        try:
+            super().__setattr__(name, value)
+        except Exception:
+            object.__setattr__(self, "__dict__", old_dict)
+            object.__setattr__(self, "__pydantic_fields_set__", old_fields_set)
+            raise
+
     def write(self, store: StoreLike) -> None:
         """Helper function to write GeffMetadata into the group of a zarr geff store.
         Maintains consistency by preserving ignored attributes with their original values.
